@@ -1115,6 +1115,20 @@ def alloc_check(pid, tier, seed):
             continue
         led = ['LEDGER' + o[1:] for o in c_out]
         rc, l_out, l_err = run_driver(ctx.model, env.text() + '\n'.join(led) + '\n', pid.lower() + 'l')
+        # the allocation-level model (Impl/Heap.v) must produce the very same event sequence, request by request
+        rc, s_out, s_err = run_driver(ctx.impl, env.text() + 'SIZES\n', pid.lower() + 's')
+        sizes = ','.join(s_out[0].split()[1:]) if s_out and s_out[0].startswith('S') else ''
+        hl = ['HTRACE %s %s' % (sizes, l.split(' ', 1)[1]) for l in lines]
+        rc, h_out, h_err = run_driver(ctx.model, env.text() + '\n'.join(hl) + '\n', pid.lower() + 'h')
+        for i, (l, o) in enumerate(zip(lines, c_out)):
+            h = h_out[i] if i < len(h_out) else '<model driver aborted: %s>' % h_err[-300:]
+            tally['heap_model_traces'] = tally.get('heap_model_traces', 0) + 1
+            if h == o:
+                tally['heap_model_agrees'] = tally.get('heap_model_agrees', 0) + 1
+            else:
+                viol(run, 'disagreement', 'allocation-level model (Impl/Heap.v) and protobuf-c disagree on the sequence of allocator events\n%s\n'
+                                          '--- schema + case (UNPACKT on build/c/impl_driver-*, HTRACE %s ... on build/ocaml/model_driver)\n%s%s\n--- protobuf-c\n%s\n--- model\n%s\n'
+                     % (first_diff(o, h), sizes, env.text(), l, o[:4000], h[:4000]))
         for i, (l, o) in enumerate(zip(lines, c_out)):
             tally['traces'] += 1; tally['events'] += len(o.split()) - 1
             v = l_out[i] if i < len(l_out) else '?'
